@@ -125,7 +125,9 @@ bool splinetable<Alloc>::write_key(const char* key, const T& value){
 	size_t valuelen = valuedata.size() + 1;
 	//For normal (short) keys, we get up to 68 bytes of storage, but for longer keywords
 	//the 'HIERARCH Keyword Convention' kicks in and limits us further
-	if(valuelen-1>maxdatalen){
+	//every single quote in the value is doubled when it is written to a FITS card
+	size_t encodedlen=(valuelen-1)+std::count(valuedata.begin(),valuedata.end(),'\'');
+	if(encodedlen>maxdatalen){
 		throw std::runtime_error("Value is too long to be stored as a FITS keyword ('"
 								 +valuedata+"' has length "+std::to_string(valuelen-1)
 								 +", but a maximum of "+std::to_string(maxdatalen)+
